@@ -280,9 +280,7 @@ def _index_maps(prog, rep):
     ok = Frag(t, "BinaryOp(self._variables[i][j], vec_elem, '*')", "for i in range(self.rows):", "for j in range(self.cols):", "vector[j]", "BinaryOp(row_expr, term, '+')")
     rep.pin('index maps of views', "R11.3", "MatrixVariable._matmul_vector", ok, "row i = sum_j A[i][j] * v[j]" if ok else "(A @ v)[i] is not sum_j A[i][j] * v[j]", loc=mm.loc, detail="row-i")
     vv = prog.cls("VectorVariable")
-    t = src(vv.methods["__init__"].node)
-    ok = "Variable(f'{name}[{i}]', lb=lb, ub=ub, domain=domain) for i in range(size)" in t
-    rep.pin('index maps of views', "R11.3", "VectorVariable.__init__", ok, "element i is named name[i]" if ok else "vector elements are not created as name[i] for i in range(size)", loc=vv.loc, detail="element-names")
+    _element_names(prog, rep, vv)
     gi = vv.methods["__getitem__"]
     t = src(gi.node)
     ok = Frag(t, "return self._variables[key]", "sliced_vars = self._variables[key]", "key = self.size + key")
@@ -394,6 +392,83 @@ def _identity(prog, rep):
             rep.ob("R11.4", f"{cname}.{m.name}", not missing, "assigns every slot of the class" if not missing else f"view built without __init__ leaves slot(s) {missing} unset (AttributeError or lost domain later)", loc=m.loc, detail="all-slots")
             creates = [c for c in calls(m.node, local=False) if dotted(c.func) == "Variable"]
             rep.ob("R11.4", f"{cname}.{m.name}", not creates, "shares the existing Variable objects" if not creates else "creates new Variable objects instead of sharing the original ones: the view and the original are different variables with equal names", loc=m.loc, detail="shares-variables")
+
+
+def _fstring_pattern(node, assigns, depth=0):
+    """A string-building expression as a list of parts: literal text (str) or ('expr', source).  Locals bound once to
+    a string expression are expanded; adjacent literals are merged.  None when not interpretable."""
+    parts = []
+    if isinstance(node, ast.Constant) and isinstance(node.value, str):
+        parts = [node.value]
+    elif isinstance(node, ast.JoinedStr):
+        for v in node.values:
+            if isinstance(v, ast.Constant):
+                parts.append(str(v.value))
+            elif isinstance(v, ast.FormattedValue) and v.format_spec is None and v.conversion in (-1, 115):
+                sub = None
+                if isinstance(v.value, ast.Name) and depth < 3:
+                    vals = [x for x in assigns.get(v.value.id, []) if isinstance(x, ast.AST)]
+                    if len(vals) == 1 and isinstance(vals[0], (ast.JoinedStr, ast.Constant, ast.BinOp)):
+                        sub = _fstring_pattern(vals[0], assigns, depth + 1)
+                parts += sub if sub is not None else [("expr", src(v.value))]
+            else:
+                return None
+    elif isinstance(node, ast.BinOp) and isinstance(node.op, ast.Add):
+        l, r = _fstring_pattern(node.left, assigns, depth), _fstring_pattern(node.right, assigns, depth)
+        if l is None or r is None:
+            return None
+        parts = l + r
+    elif isinstance(node, ast.Call) and dotted(node.func) == "str" and len(node.args) == 1:
+        parts = [("expr", src(node.args[0]))]
+    elif isinstance(node, ast.Name) and depth < 3:
+        vals = [x for x in assigns.get(node.id, []) if isinstance(x, ast.AST)]
+        if len(vals) == 1 and isinstance(vals[0], (ast.JoinedStr, ast.Constant, ast.BinOp)):
+            return _fstring_pattern(vals[0], assigns, depth + 1)
+        parts = [("expr", node.id)]
+    else:
+        return None
+    out = []
+    for p_ in parts:
+        if isinstance(p_, str) and out and isinstance(out[-1], str):
+            out[-1] += p_
+        elif p_ != "":
+            out.append(p_)
+    return out
+
+
+def _element_names(prog, rep, vv):
+    """Element i of VectorVariable(name, size) is the Variable called "name[i]", i over range(size): the constructor's
+    Variable(...) call inside a comprehension / loop over range(size) is evaluated as a string pattern."""
+    init = vv.methods["__init__"]
+    asg = local_assignments(init.node)
+    found = 0
+    for c in calls(init.node, local=False):
+        if dotted(c.func) != "Variable" or not c.args:
+            continue
+        comp = None
+        p_ = parent(c)
+        while p_ is not None and p_ is not init.node:
+            if isinstance(p_, (ast.ListComp, ast.GeneratorExp)):
+                comp = p_.generators[0]
+                break
+            if isinstance(p_, ast.For):
+                comp = p_
+                break
+            p_ = parent(p_)
+        if comp is None:
+            continue
+        found += 1
+        idx, it = src(comp.target), comp.iter
+        over_size = isinstance(it, ast.Call) and dotted(it.func) == "range" and len(it.args) == 1 and src(it.args[0]) in ("size", "self.size")
+        pat = _fstring_pattern(c.args[0], asg)
+        if pat is None or not over_size:
+            rep.undecided(f"VectorVariable.__init__: element names `{src(c.args[0])[:40]}` over `{src(it)[:30]}` not interpretable")
+            continue
+        ok = pat == [("expr", "name"), "[", ("expr", idx), "]"] or pat == [("expr", "self.name"), "[", ("expr", idx), "]"]
+        shown = "".join(p if isinstance(p, str) else "{" + p[1] + "}" for p in pat)
+        rep.ob("R11.3", "VectorVariable.__init__", ok, f"element {idx} is named name[{idx}] for {idx} in range(size)" if ok else f"vector elements are named `{shown}`, not name[{idx}]: indexing, slicing and the solution's name-keyed values address other elements than NumPy's x[{idx}]", loc=f"{init.module.rel}:{c.lineno}", detail="element-names", robust=True)
+    if not found:
+        rep.undecided("VectorVariable.__init__: no Variable(...) construction over range(size) found")
 
 
 def _memo_and_buffers(prog, rep):
